@@ -204,8 +204,12 @@ func genSsim(profile string, seed uint64, thorough bool) *Scenario {
 			scn.SClients = append(scn.SClients, cl)
 		}
 		if g.chance(50) {
-			f := DiskFault{OpKind: pick(g, "write", "write", "write", "sync", "create", "close", "any"), Nth: g.IntN(6), Errno: pick(g, "ENOSPC", "EIO", "CRASH", "CRASH")}
+			f := DiskFault{OpKind: pick(g, "write", "write", "write", "sync", "create", "close", "rename", "any"), Nth: g.IntN(6), Errno: pick(g, "ENOSPC", "EIO", "CRASH", "CRASH")}
 			f.Arg, f.Permille = g.IntN(1001), true
+			if f.OpKind == "rename" || g.chance(10) {
+				// what a vanished temporary file, a read-only or foreign directory look like
+				f.Errno = pick(g, "ENOENT", "EACCES", "EPERM", "EXDEV", "EIO", "CRASH")
+			}
 			scn.DiskFaults = append(scn.DiskFaults, f)
 		}
 		var p2 SClient
